@@ -1,6 +1,7 @@
 package exec
 
 import (
+	"strconv"
 	"fmt"
 	"go/token"
 	"go/types"
@@ -320,14 +321,41 @@ func (x *Exec) Start() (*State, []Val) {
 	x.entryAlloc = st.Alloc
 	args := make([]Val, len(x.Fn.Params))
 	x.params = map[string]Val{}
+	// `attr split <param> v1 v2 ...` on a plain integer parameter: the parameter IS the constant in
+	// this run (so that everything depending on it folds); exhaustiveness is checked once with a
+	// symbolic stand-in below
+	splitParam, splitSym := "", Val(nil)
+	if x.Spec != nil {
+		if f := strings.Fields(x.Spec.Attrs["split"]); len(f) >= 2 {
+			for _, p := range x.Fn.Params {
+				if p.Name() == f[0] {
+					if b, ok := p.Type().Underlying().(*types.Basic); ok && b.Info()&types.IsInteger != 0 {
+						splitParam = f[0]
+					}
+				}
+			}
+		}
+	}
 	for i, p := range x.Fn.Params {
 		v := freshVal("p."+p.Name(), p.Type())
+		if p.Name() == splitParam && x.SplitIdx >= 0 {
+			f := strings.Fields(x.Spec.Attrs["split"])
+			if x.SplitIdx < len(f)-1 {
+				if k, err := strconv.ParseInt(f[1+x.SplitIdx], 0, 64); err == nil {
+					splitSym = v
+					v = VT{term.I(k), p.Type()}
+				}
+			}
+		}
 		args[i] = v
 		x.params[p.Name()] = v
 		x.params[p.Name()+"0"] = v
 	}
 	for i, p := range x.Fn.Params {
 		x.assumeParam(st, args[i], p.Type())
+	}
+	if splitSym != nil {
+		x.assumeParam(st, splitSym, splitSym.(VT).Ty)
 	}
 	var binds []Val
 	for _, fv := range x.Fn.FreeVars {
@@ -362,15 +390,31 @@ func (x *Exec) Start() (*State, []Val) {
 				x.fail("attr split: %v", err2)
 			}
 			if x.SplitIdx == 0 {
+				cenv := env
+				var hyp []*T
+				if splitSym != nil {
+					// exhaustiveness over the symbolic parameter: requires(sym) ==> sym is one of the cases
+					ce := *env
+					ce.vars = map[string]Val{}
+					for k, v := range env.vars {
+						ce.vars[k] = v
+					}
+					ce.vars[splitParam] = splitSym
+					ce.vars[splitParam+"0"] = splitSym
+					cenv = &ce
+					for _, r := range x.Spec.Requires {
+						hyp = append(hyp, term.Not(cenv.evalBool(r.E)))
+					}
+				}
 				var alts []*T
 				for _, f := range fields[1:] {
 					fv, err := contract.ParseExpr(f)
 					if err != nil {
 						x.fail("attr split: %v", err)
 					}
-					alts = append(alts, term.Eq(env.evalInt(ex), env.evalInt(fv)))
+					alts = append(alts, term.Eq(cenv.evalInt(ex), cenv.evalInt(fv)))
 				}
-				x.oblige(st, "split", "exhaustive", term.Or(alts...), token.NoPos)
+				x.oblige(st, "split", "exhaustive", term.Or(append(hyp, alts...)...), token.NoPos)
 			}
 			x.assume(st, term.Eq(env.evalInt(ex), env.evalInt(v)))
 			x.Label = fmt.Sprintf("[%s=%s]", fields[0], fields[1+x.SplitIdx])
